@@ -20,6 +20,7 @@
 (*                                                                         *)
 (* Abstract lines are records [k, n, a, b]: kind, a name, two integers.    *)
 (*   lab n            address label (n names its scope class, see Cls)     *)
+(*   ustr / wstr / rstr  .cstr "\u0141" / .2byte "AB" / the embedded string "é"  *)
 (*   labreg / labkw   a label that is a register name / assembler keyword  *)
 (*   const n a        constant n = a                                       *)
 (*   i1               one-byte instruction                                 *)
@@ -250,10 +251,12 @@ ReadAll(r, p, j) == IF j > Len(p) \/ r.status # "run" THEN r ELSE ReadAll(ReadSt
 ---------------------------------------------------------------------------
 (* Pass 1 (C02, C05): addresses, sizes, zone cursors, label binding.       *)
 
-ByteKinds == {"i1", "m2", "ustr", "i2", "i3", "byte", "fill", "zero", "zuntil", "pdata", "raw"}
+ByteKinds == {"i1", "m2", "ustr", "wstr", "rstr", "i2", "i3", "byte", "fill", "zero", "zuntil", "pdata", "raw"}
 
 SizeOf(lo, addr) ==
     CASE lo.k = "i1" -> 1 [] lo.k = "i2" -> 2 [] lo.k = "i3" -> 3 [] lo.k = "m2" -> 2 [] lo.k = "ustr" -> 2
+      [] lo.k = "wstr" -> 4             \* .2byte "AB": every character of the string is a value of the directive's width
+      [] lo.k = "rstr" -> 3             \* an embedded string "é" written with the character itself: its two UTF-8 bytes and the terminator
       [] lo.k = "byte" -> lo.b
       [] lo.k \in {"fill", "zero"} -> lo.a
       [] lo.k = "zuntil" -> IF lo.a >= addr THEN lo.a - addr + 1 ELSE 0
@@ -336,6 +339,8 @@ BytesOf(o, tab) ==
     LET v == OperandVal(o, tab) IN
     CASE o.k = "i1" -> [bytes |-> <<234>>, err |-> ""]
       [] o.k = "ustr" -> [bytes |-> <<65, 0>>, err |-> ""]
+      [] o.k = "wstr" -> [bytes |-> <<65, 0, 66, 0>>, err |-> ""]       \* little-endian carrier
+      [] o.k = "rstr" -> [bytes |-> <<195, 169, 0>>, err |-> ""]
       [] o.k = "m2" -> [bytes |-> <<16, 32>>, err |-> ""]      \* each 4-bit step is padded to a byte of its own
       [] o.k = "i2" -> IF v = Undef THEN [bytes |-> <<>>, err |-> "unresolved"]
                        ELSE IF ~Fits(v, 8) THEN [bytes |-> <<>>, err |-> "fit"]
